@@ -400,6 +400,14 @@ impl<'m> MCTPSMBusContext<'m> {
                         ));
                     }
 
+                    if packet[2] > CompletionCode::ErrorUnsupportedCmd as u8 {
+                        // Not a completion code we know (e.g. command specific)
+                        return Err((
+                            MessageType::MCtpControl,
+                            DecodeError::ControlMessage(ControlMessageError::Unknown),
+                        ));
+                    }
+
                     if packet[2] != CompletionCode::Success as u8 {
                         return Err((
                             MessageType::MCtpControl,
